@@ -7,7 +7,7 @@ from concurrent.futures import ThreadPoolExecutor
 from .. import core, tlc, cli
 from .. import world as W
 
-BUNDLED = '/repo/tests/data/testdb_210818'
+BUNDLED = os.path.join(os.environ.get('GAMBIT_REPO', '/repo'), 'tests/data/testdb_210818')
 
 
 def snapshot(d):
